@@ -249,7 +249,16 @@ pub enum PMsg {
 
 /// Plain (local only) message of the non-remotable probe
 pub struct QMsg;
-impl ractor::Message for QMsg {}
+// not serializable (so its actor does not support remoting), but anything that is handed to it in serialized form
+// would decode: a frame a session wrongly forwards to this actor shows up in its handler
+impl ractor::Message for QMsg {
+    fn serializable() -> bool {
+        false
+    }
+    fn deserialize(_: ractor::message::SerializedMessage) -> Result<Self, ractor::message::BoxedDowncastErr> {
+        Ok(QMsg)
+    }
+}
 
 fn kvs(k: &str, v: &str) -> (String, Val) {
     (k.to_string(), Val::S(v.to_string()))
@@ -286,6 +295,9 @@ impl Actor for Probe {
     }
 }
 
+/// messages handled by non-remotable probes since the last reading (nothing a peer sends may ever get there)
+pub static Q_HANDLED: std::sync::atomic::AtomicU64 = std::sync::atomic::AtomicU64::new(0);
+
 pub struct QProbe {
     pub name: String,
 }
@@ -298,6 +310,7 @@ impl Actor for QProbe {
         Ok(())
     }
     async fn handle(&self, _: ActorRef<QMsg>, _: QMsg, _: &mut ()) -> Result<(), ActorProcessingErr> {
+        Q_HANDLED.fetch_add(1, std::sync::atomic::Ordering::SeqCst);
         verif::emit_kv("obs.handled", 0, 0, vec![kvs("x", &self.name), kvs("k", "Q"), kvi("m", 0)]);
         Ok(())
     }
